@@ -39,7 +39,7 @@ class Engine:
         self.max_open = 0
 
     def payload(self):
-        return {"pool": [{"type": p["type"], "data": p["data"], "cc": p["cc"], "enc": p["enc"], "parts": p.get("parts")} for p in self.pool], "history": self.history}
+        return {"pool": [{"type": p["type"], "data": p["data"], "cc": p["cc"], "enc": p["enc"], "parts": p.get("parts"), "container": p.get("container"), "malformed": p.get("malformed", False)} for p in self.pool], "history": self.history}
 
     def _marshal(self, i, mode):
         from tpmstream.io.binary import Binary
@@ -51,21 +51,43 @@ class Engine:
             kw["command_code"] = TPM_CC(p["cc"])
         if p["enc"]:
             kw["parameter_encryption"] = True
-        return Binary.marshal(**kw)
+        front = Binary
+        c = p.get("container")
+        if c:
+            # the same message handed over in a container (the front ends are part of "decoding")
+            from .. import context
 
-    def _record(self, key, value, what):
-        """value: (events list, object or None)"""
+            if c == "hex":
+                from tpmstream.io.hex import Hex as front
+
+                kw["buffer"] = context.hex_text(p["data"]).encode()
+            elif c == "swtpm":
+                from tpmstream.io.swtpm_log import SWTPMLog as front
+
+                kw["buffer"] = context.swtpm_text(p["data"]).encode()
+            elif c in ("pcapng-eth", "pcapng-raw"):
+                from tpmstream.io.pcapng import Pcapng as front
+
+                kw["buffer"] = context.pcapng_bytes(p["data"], ethernet=(c == "pcapng-eth"))
+        return front.marshal(**kw)
+
+    def _record(self, key, value, what, outcome=None):
+        """value: (events list, object or None); outcome: None (ran to its end) or the described error that ended it"""
         events, obj = value
         tuples = [O.event_tuple(e) + (O.value_class(e),) for e in events]
         if key not in self.first:
-            self.first[key] = (events, obj, tuples)
+            self.first[key] = (events, obj, tuples, outcome)
             return
-        ev0, obj0, tup0 = self.first[key]
+        ev0, obj0, tup0, out0 = self.first[key]
         pl = self.payload()
+        if outcome != out0:
+            self.ctx.problem("C12:outcome-differs", f"{what}: ended with {outcome}, the first decode of the same input with the same arguments ended with {out0}; history {self.history}", pl)
         if tuples != tup0:
             d = next((k for k, (a, b) in enumerate(zip(tuples, tup0)) if a != b), min(len(tuples), len(tup0)))
             self.ctx.problem("C12:events-differ", f"{what}: event {d} is {tuples[d] if d < len(tuples) else None}, the first decode of the same input gave {tup0[d] if d < len(tup0) else None}; history {self.history}", pl)
         for k, (a, b) in enumerate(zip(events, ev0)):
+            if not hasattr(a, "type") or not hasattr(b, "type"):
+                continue  # warnings wrap exception objects (compared by identity): their text is part of the tuples above
             if not (a == b):
                 same_name = getattr(a.type, "__name__", None) == getattr(b.type, "__name__", None)
                 self.ctx.problem(
@@ -76,10 +98,17 @@ class Engine:
         if obj is not None and obj0 is not None and not (obj == obj0):
             self.ctx.problem("C12:object-not-equal", f"{what}: object differs from the first decode's object; history {self.history}", pl)
 
-    def _finished(self, i, mode, events, obj, how):
+    def _finished(self, i, mode, events, obj, how, outcome=None):
         if self.pool[i]["encrypted_area"]:
             self.enc_seq.append(i)
-        self._record((i, "decode"), (events, obj), f"{how} decode of message {i} ({mode})")
+        # a malformed message ends differently in the two modes: one record per mode
+        key = (i, "decode", mode) if self.pool[i].get("malformed") else (i, "decode")
+        self._record(key, (events, obj), f"{how} decode of message {i} ({mode})", outcome)
+
+    @staticmethod
+    def _ended(err):
+        d = O.describe_error(err) or {"kind": type(err).__name__}
+        return {k: (v.hex() if isinstance(v, (bytes, bytearray)) else v) for k, v in d.items() if not k.startswith("_") and k != "message"}
 
     def step(self, s):
         """Execute one history step; an exception out of the library is itself a result that differs from the first decode
@@ -104,12 +133,17 @@ class Engine:
             g = self._marshal(i, mode)
             events = []
             obj = None
+            outcome = None
             try:
                 while True:
                     events.append(next(g))
             except StopIteration as stop:
                 obj = stop.value
-            self._finished(i, mode, events, obj, "full")
+            except O.DOCUMENTED as err:
+                if not self.pool[i].get("malformed"):
+                    raise
+                outcome = self._ended(err)
+            self._finished(i, mode, events, obj, "full", outcome)
         elif kind == "thread":
             # the same full decode, run to its end in a worker thread of this process
             import concurrent.futures
@@ -123,11 +157,15 @@ class Engine:
                     while True:
                         events.append(next(g))
                 except StopIteration as stop:
-                    return events, stop.value
+                    return events, stop.value, None
+                except O.DOCUMENTED as err:
+                    if not self.pool[i].get("malformed"):
+                        raise
+                    return events, None, self._ended(err)
 
             with concurrent.futures.ThreadPoolExecutor(max_workers=1) as ex:
-                events, obj = ex.submit(work).result()
-            self._finished(i, mode, events, obj, "worker-thread")
+                events, obj, outcome = ex.submit(work).result()
+            self._finished(i, mode, events, obj, "worker-thread", outcome)
         elif kind == "declare":
             # an application may declare further parameter areas (e.g. of a vendor command) while it is decoding
             from tpmstream.spec.commands.params_common import TPMS_PARAMS
@@ -150,17 +188,28 @@ class Engine:
             except StopIteration as stop:
                 self.open.remove(slot)
                 self._finished(slot[0], slot[1], slot[3], stop.value, "step-wise")
+            except O.DOCUMENTED as err:
+                self.open.remove(slot)
+                if not self.pool[slot[0]].get("malformed"):
+                    raise
+                self._finished(slot[0], slot[1], slot[3], None, "step-wise", self._ended(err))
         elif kind == "finish":
             _, j = s
             slot = self.open[j % len(self.open)]
             obj = None
+            outcome = None
             try:
                 while True:
                     slot[3].append(next(slot[2]))
             except StopIteration as stop:
                 obj = stop.value
+            except O.DOCUMENTED as err:
+                if not self.pool[slot[0]].get("malformed"):
+                    self.open.remove(slot)
+                    raise
+                outcome = self._ended(err)
             self.open.remove(slot)
-            self._finished(slot[0], slot[1], slot[3], obj, "step-wise")
+            self._finished(slot[0], slot[1], slot[3], obj, "step-wise", outcome)
         elif kind == "split":
             # the messages of a stream decoded one by one (each response with the code and the encryption request of the
             # command before it): "results of separate decodes [and] of stream decodes ... are mutually comparable"
@@ -169,7 +218,7 @@ class Engine:
 
             _, i = s
             parts = self.pool[i].get("parts")
-            if not parts:
+            if not parts or self.pool[i].get("malformed"):
                 return
             events = []
             for tname, cc, enc, a, b in parts:
@@ -185,7 +234,7 @@ class Engine:
             from tpmstream.spec.structures.constants import TPM_CC
 
             _, i = s
-            if (i, "decode") not in self.first:
+            if (i, "decode") not in self.first or self.pool[i].get("malformed"):
                 return
             p = self.pool[i]
             events = list(self.first[(i, "decode")][0])
@@ -204,7 +253,7 @@ class Engine:
 
             _, i = s
             p = self.pool[i]
-            if p["enc"] or self.L.is_prim(p["type"]):
+            if p["enc"] or self.L.is_prim(p["type"]) or p.get("malformed") or p.get("container"):
                 return
             c = Canonical(p["data"], format_in=Binary, tpm_type=O.lib_type(p["type"]), command_code=TPM_CC(p["cc"]) if p["cc"] is not None else None)
             self._record((i, "decode"), (list(c.events), None), f"Canonical decode of message {i}")
@@ -239,7 +288,28 @@ def pools(draw, L):
             from .c09 import message_ranges
 
             parts = [[kind, cc, enc, a, b] for kind, cc, enc, a, b, m in message_ranges(L, c)]
-        pool.append({"type": c.type, "data": c.data, "cc": c.cc, "enc": bool(c.enc), "encrypted_area": encrypted_area, "parts": parts})
+        entry = {"type": c.type, "data": c.data, "cc": c.cc, "enc": bool(c.enc), "encrypted_area": encrypted_area, "parts": parts, "container": None, "malformed": False}
+        kind = draw(st.integers(0, 9))
+        if kind == 0:
+            # a malformed variant (one wrong size or one out-of-range value): both modes end the way they ended before
+            from .. import faults
+            from .common import model_for_case
+
+            sites = faults.size_sites(L, c) + faults.constrained_sites(L, c)
+            if sites:
+                i = draw(st.sampled_from(sites))
+                t = c.tokens[i][1]
+                lo, hi = L.limits(t)
+                nv = draw(st.sampled_from([v for v in (c.tokens[i][2] + 1, c.tokens[i][2] - 1, lo, hi) + tuple(L.outside_values(t)[:2]) if lo <= v <= hi and v != c.tokens[i][2]]))
+                entry.update(data=faults.patch(L, c, {i: nv}), malformed=True, parts=None)
+        elif kind <= 3 and c.type in ("Command", "Response", "CommandResponseStream") and not entry["enc"]:
+            from .. import context
+
+            if context.split_messages(c.data) is not None and (c.type == "CommandResponseStream" or len(context.split_messages(c.data)) == 1):
+                entry["container"] = draw(st.sampled_from(["pcapng-eth", "pcapng-raw", "hex", "swtpm"]))
+                if entry["container"].startswith("pcapng"):
+                    entry["parts"] = None
+        pool.append(entry)
     return pool
 
 
